@@ -48,6 +48,20 @@ class TableDelta:
         self.merged = 0
 
 
+def _allowed(table, a, kw):
+    """The largest perturbation the table tolerances legitimately permit for this table: a few x (atol + rtol * max|value|).
+    A larger implied perturbation is a misclassification, not a tolerance effect, and must NOT be credited to the tolerance budget
+    (otherwise a table wrongly declared piecewise/uniform/not-permuted would excuse the wrong values it produces)."""
+    rtol = kw.get("rtol", a[0] if len(a) > 0 else 1e-6)
+    atol = kw.get("atol", a[1] if len(a) > 1 else 1e-9)
+    t = np.asarray(table, dtype=float)
+    m = float(np.max(np.abs(t))) if t.size else 0.0
+    try:
+        return 4.0 * (float(atol) + float(rtol) * max(m, 1.0))
+    except (TypeError, ValueError):
+        return 4.0 * (1e-9 + 1e-6 * max(m, 1.0))
+
+
 @contextlib.contextmanager
 def table_delta():
     import ffcx.ir.elementtables as et
@@ -64,7 +78,7 @@ def table_delta():
         mon.clamp_calls += 1
         if before.size:
             d = float(np.max(np.abs(np.asarray(out, dtype=float) - before)))
-            mon.delta = max(mon.delta, d)
+            mon.delta = max(mon.delta, min(d, _allowed(before, a, kw)))
         return out
 
     @functools.wraps(orig_equal)
@@ -77,7 +91,7 @@ def table_delta():
                 d = float(np.max(np.abs(aa - bb)))
                 if d > 0:
                     mon.merged += 1
-                mon.delta = max(mon.delta, d)
+                mon.delta = max(mon.delta, min(d, _allowed(aa, args, kw)))
         return r
 
     orig_analyse = et.analyse_table_type
@@ -86,7 +100,7 @@ def table_delta():
     @functools.wraps(orig_analyse)
     def analyse(table, *a, **kw):
         tt = orig_analyse(table, *a, **kw)
-        mon.delta = max(mon.delta, _implied_perturbation(table, tt))
+        mon.delta = max(mon.delta, min(_implied_perturbation(table, tt), _allowed(table, a, kw)))
         return tt
 
     @functools.wraps(orig_perm)
@@ -94,7 +108,7 @@ def table_delta():
         r = orig_perm(table, *a, **kw)
         t = np.asarray(table, dtype=float)
         if not r and t.size and t.shape[0] > 1:
-            mon.delta = max(mon.delta, float(np.max(np.abs(t - t[:1]))))
+            mon.delta = max(mon.delta, min(float(np.max(np.abs(t - t[:1]))), _allowed(t, a, kw)))
         return r
 
     p.set(et, "clamp_table_small_numbers", clamp)
